@@ -25,67 +25,92 @@ def merge(*ds):
     return out
 
 
-# property -> tier -> list of runs
+# property -> tier -> list of runs.  A run = families per lock class explored at one bound
+# (-1 = no preemption bound: the state cache closes the search).
+def lr(fams, bound, dev=0, budget=90.0, job_budget=60.0, retry=0):
+    return lock_runs(fams, bound=bound, dev=dev, budget=budget, job_budget=job_budget, retry=retry)
+
+
+OPT = (1,)
+MCS = (2,)
+
+
 def lock_spec(prop, tier):
     q = tier == "quick"
+    T = dict(budget=900.0, job_budget=600.0)  # thorough budgets
     if prop == "C01":
         if q:
-            return lock_runs(merge(fam("p2x2", "p3x1"), fam("opt2", "prep2", locks=(1,))), bound=2, budget=80, job_budget=30)
-        return (lock_runs(merge(fam("p2x2", "p3x1", "conv3", "p2x3"), fam("opt2", "opt3", "prep2", "prep3", locks=(1,)), fam("p4x1", locks=(2,))),
-                          bound=3, budget=420, job_budget=120)
-                + lock_runs(fam("p2x1", "p3x1"), bound=2, dev=1, budget=120, job_budget=60)
-                + lock_runs(fam("p2x2", "p3x1"), bound=2, budget=200, job_budget=60, retry=1))
+            return (lr(merge(fam("p2x1", "conv2"), fam("opt2", "prep2", locks=OPT)), -1)
+                    + lr(fam("p2x2", "p3x1"), 2))
+        return (lr(merge(fam("p2x1", "conv2", "p2x2"), fam("opt2", "prep2", locks=OPT)), -1, **T)
+                + lr(merge(fam("p3x1", "conv3", "p2x3"), fam("opt3", "prep3", locks=OPT)), 3, **T)
+                + lr(fam("p4x1", locks=MCS), 2, **T)
+                + lr(fam("p2x1", "p3x1"), 2, dev=1, **T)
+                + lr(fam("p2x2", "p3x1"), 2, retry=1, **T))
     if prop == "C02":
         if q:
-            return lock_runs(merge(fam("p1", "p2x2", "p3x1", "conv2"), fam("prep2", locks=(1,))), bound=2, budget=80, job_budget=30)
-        return (lock_runs(merge(fam("p1", "p2x2", "p3x1", "conv2", "conv3", "p2x3", "twolocks"), fam("prep2", "opt2", locks=(1,)),
-                                fam("p4x1", "warm2", locks=(2,))), bound=3, budget=420, job_budget=120)
-                + lock_runs(fam("p2x1", "p3x1"), bound=2, dev=1, budget=120, job_budget=60)
-                + lock_runs(fam("p2x2", "p3x1"), bound=2, budget=200, job_budget=60, retry=1))
+            return (lr(merge(fam("p1", "p2x1", "conv2"), fam("prep2", locks=OPT)), -1)
+                    + lr(fam("p2x2", "p3x1"), 2))
+        return (lr(merge(fam("p1", "p2x1", "conv2", "p2x2", "twolocks"), fam("prep2", "opt2", locks=OPT)), -1, **T)
+                + lr(merge(fam("p3x1", "conv3", "p2x3"), fam("warm2", locks=MCS)), 3, **T)
+                + lr(fam("p4x1", locks=MCS), 2, **T)
+                + lr(fam("p2x1", "p3x1"), 2, dev=1, **T)
+                + lr(fam("p2x2", "p3x1"), 2, retry=1, **T))
     if prop == "C07":
         if q:
-            return lock_runs(merge(fam("guards1", "guards2", "p2x1"), fam("opt1", "prep2", locks=(1,))), bound=2, budget=80, job_budget=30)
-        return lock_runs(merge(fam("guards1", "guards2", "guards3", "p2x2", "twolocks"), fam("opt1", "opt2", "prep2", "prep3", locks=(1,))),
-                         bound=3, budget=420, job_budget=120)
+            return (lr(merge(fam("guards1", "guards2", "p2x1"), fam("opt1", "prep2", locks=OPT)), -1)
+                    + lr(fam("p2x2"), 2))
+        return (lr(merge(fam("guards1", "guards2", "p2x1", "p2x2", "twolocks"), fam("opt1", "opt2", "prep2", locks=OPT)), -1, **T)
+                + lr(merge(fam("guards3"), fam("prep3", locks=OPT)), 3, **T))
     if prop == "C08":
         if q:
-            return lock_runs(merge(fam("p2x2", "p3x1", "conv2"), fam("opt2", "prep2", "republish", locks=(1,))), bound=2, budget=80, job_budget=30)
-        return lock_runs(merge(fam("p2x2", "p3x1", "conv2", "conv3", "p2x3", "guards2"), fam("opt2", "opt3", "prep2", "prep3", "republish", locks=(1,)),
-                               fam("p4x1", "warm2", locks=(2,))), bound=3, budget=420, job_budget=120)
+            return (lr(merge(fam("p2x1", "conv2"), fam("opt2", "prep2", "republish", locks=OPT)), -1)
+                    + lr(fam("p2x2", "p3x1"), 2))
+        return (lr(merge(fam("p2x1", "conv2", "p2x2", "guards2"), fam("opt2", "prep2", "republish", locks=OPT)), -1, **T)
+                + lr(merge(fam("p3x1", "conv3", "p2x3"), fam("opt3", "prep3", locks=OPT), fam("warm2", locks=MCS)), 3, **T)
+                + lr(fam("p4x1", locks=MCS), 2, **T))
     if prop == "C10":
         if q:
-            return lock_runs(merge(fam("conv2", "conv3"), fam("opt2", locks=(1,))), bound=2, budget=80, job_budget=30)
-        return (lock_runs(fam("conv2", "conv3", "p3x2c", "p2x2"), bound=3, budget=420, job_budget=120)
-                + lock_runs(fam("conv2"), bound=2, dev=1, budget=120, job_budget=60))
+            return lr(merge(fam("conv2"), fam("opt2", locks=OPT)), -1) + lr(fam("conv3"), 2)
+        return (lr(merge(fam("conv2", "p2x2"), fam("opt2", locks=OPT)), -1, **T)
+                + lr(fam("conv3", "p3x2c"), 3, **T)
+                + lr(fam("conv2"), 2, dev=1, **T))
     if prop == "C11":
         if q:
-            return lock_runs(fam("p2x2", "p3x1", "conv3", locks=(2,)), bound=2, budget=80, job_budget=30)
-        return (lock_runs(fam("p2x2", "p3x1", "conv3", "p4x1", "p3x2", locks=(2,)), bound=3, budget=420, job_budget=120)
-                + lock_runs(fam("p3x1", locks=(2,)), bound=-1, budget=200, job_budget=120))
+            return lr(fam("p2x1", "conv2", locks=MCS), -1) + lr(fam("p2x2", "p3x1", "conv3", locks=MCS), 2)
+        return (lr(fam("p2x1", "conv2", "p2x2", "p3x1", locks=MCS), -1, **T)
+                + lr(fam("conv3", "p3x2", locks=MCS), 3, **T)
+                + lr(fam("p4x1", locks=MCS), 2, **T))
     if prop == "C12":
         if q:
-            return lock_runs(fam("p1", "p2x2", "p3x1", "warm2", "twolocks", "guards2", locks=(2,)), bound=2, budget=80, job_budget=30)
-        return (lock_runs(fam("p1", "p2x2", "p3x1", "warm2", "twolocks", "guards2", "guards3", "p4x1", "p3x2", "conv3", locks=(2,)),
-                          bound=3, budget=420, job_budget=120)
-                + lock_runs(fam("p2x1", "p3x1", locks=(2,)), bound=2, dev=1, budget=120, job_budget=60))
+            return (lr(fam("p1", "p2x1", "conv2", "guards2", locks=MCS), -1)
+                    + lr(fam("p2x2", "p3x1", "warm2", "twolocks", locks=MCS), 2))
+        return (lr(fam("p1", "p2x1", "conv2", "guards2", "p2x2", "twolocks", locks=MCS), -1, **T)
+                + lr(fam("p3x1", "warm2", "guards3", "conv3", "p3x2", locks=MCS), 3, **T)
+                + lr(fam("p4x1", locks=MCS), 2, **T)
+                + lr(fam("p2x1", "p3x1", locks=MCS), 2, dev=1, **T))
     if prop == "C03":
         if q:
-            return lock_runs(fam("opt1", "opt2", "opt2x2", "republish", locks=(1,)), bound=2, budget=80, job_budget=30)
-        return (lock_runs(fam("opt1", "opt2", "opt2x2", "opt3", "republish", locks=(1,)), bound=3, budget=420, job_budget=120)
-                + lock_runs(fam("opt2", "republish", locks=(1,)), bound=2, budget=200, job_budget=60, retry=1)
-                + lock_runs(fam("opt2", locks=(1,)), bound=2, dev=1, budget=120, job_budget=60))
+            return lr(fam("opt1", "opt2", "republish", locks=OPT), -1) + lr(fam("opt2x2", locks=OPT), 2)
+        return (lr(fam("opt1", "opt2", "republish", "opt2x2", locks=OPT), -1, **T)
+                + lr(fam("opt3", locks=OPT), 3, **T)
+                + lr(fam("opt2", "republish", locks=OPT), -1, retry=1, **T)
+                + lr(fam("opt2", locks=OPT), 2, dev=1, **T))
     if prop == "C09":
         if q:
-            return lock_runs(fam("opt1", "ver2", locks=(1,)), bound=2, budget=80, job_budget=30)
-        return (lock_runs(fam("opt1", "ver2", "ver3", "opt2", locks=(1,)), bound=3, budget=420, job_budget=120)
-                + lock_runs(fam("ver2", locks=(1,)), bound=2, dev=1, budget=120, job_budget=60))
+            return lr(fam("opt1", "ver2", locks=OPT), -1)
+        return (lr(fam("opt1", "ver2", "opt2", locks=OPT), -1, **T)
+                + lr(fam("ver3", locks=OPT), 3, **T)
+                + lr(fam("ver2", locks=OPT), 2, dev=1, **T))
     if prop == "C13":
         if q:
-            return (lock_runs(fam("opt1", "prep2", locks=(1,)), bound=2, budget=60, job_budget=30)
-                    + lock_runs(fam("prep2", locks=(1,)), bound=2, budget=60, job_budget=30, retry=1))
-        return (lock_runs(fam("opt1", "prep2", "prep3", "prep4", locks=(1,)), bound=3, budget=420, job_budget=120)
-                + lock_runs(fam("prep2", "prep3", locks=(1,)), bound=2, budget=200, job_budget=60, retry=1)
-                + lock_runs(fam("prep2", locks=(1,)), bound=2, dev=1, budget=120, job_budget=60))
+            return (lr(fam("opt1", "prep2", locks=OPT), -1)
+                    + lr(fam("prep2", locks=OPT), -1, retry=1))
+        return (lr(fam("opt1", "prep2", locks=OPT), -1, **T)
+                + lr(fam("prep3", "prep4", locks=OPT), 3, **T)
+                + lr(fam("prep2", locks=OPT), -1, retry=1, **T)
+                + lr(fam("prep3", locks=OPT), 2, retry=1, **T)
+                + lr(fam("prep2", locks=OPT), 2, dev=1, **T))
     return None
 
 
